@@ -1,0 +1,14 @@
+//go:build verif
+// +build verif
+
+package server
+
+import (
+	"github.com/absolute8511/redcon"
+)
+
+// VerifServeRedis feeds one client command to the redis API entry point exactly as the
+// network listener does.
+func (s *Server) VerifServeRedis(conn redcon.Conn, cmd redcon.Command) {
+	s.serverRedis(conn, cmd)
+}
